@@ -77,12 +77,8 @@ func ruleC03FormatTables(c *Ctx) {
 		}
 		info := f.Pkg.TypesInfo
 		idx := 0
-		walkOwn(f.Body(), func(n ast.Node) {
-			sw, ok := n.(*ast.SwitchStmt)
-			if !ok || sw.Tag == nil {
-				return
-			}
-			t := buildSwitchTable(info, sw)
+		for _, ta := range dispatchTablesIn(f) {
+			t, sw := ta.t, ta
 			// classify by labels
 			kind := ""
 			isLevel := false
@@ -99,7 +95,7 @@ func ruleC03FormatTables(c *Ctx) {
 				}
 			}
 			if kind == "" && !isLevel {
-				return
+				continue
 			}
 			idx++
 			nsw++
@@ -135,7 +131,7 @@ func ruleC03FormatTables(c *Ctx) {
 			}
 			c.verdictIf(defaultReturnsError(info, t.defaultArm()), rule, f, base+" default", sw.Pos(),
 				"default arm returns an error", "no default arm returning an error: an unknown "+label+" value is silently accepted")
-		})
+		}
 	}
 	if nsw < half(14) {
 		c.unresolved("only %d format/level switches found (expected >= 14)", nsw)
@@ -150,12 +146,8 @@ func ruleC03FormatTables(c *Ctx) {
 		info := f.Pkg.TypesInfo
 		out := map[string]armSuffix{}
 		var order []string
-		walkOwn(f.Body(), func(n ast.Node) {
-			sw, ok := n.(*ast.SwitchStmt)
-			if !ok || sw.Tag == nil {
-				return
-			}
-			t := buildSwitchTable(info, sw)
+		for _, ta := range dispatchTablesIn(f) {
+			t := ta.t
 			kind := ""
 			for _, a := range t.Arms {
 				for _, l := range a.Labels {
@@ -165,7 +157,7 @@ func ruleC03FormatTables(c *Ctx) {
 				}
 			}
 			if kind == "" {
-				return
+				continue
 			}
 			order = append(order, kind)
 			m := armSuffix{}
@@ -188,7 +180,7 @@ func ruleC03FormatTables(c *Ctx) {
 				}
 			}
 			out[kind] = m
-		})
+		}
 		return out, order
 	}
 	am, ao := collect(add)
@@ -380,11 +372,7 @@ func ruleC03TwoPass(c *Ctx) {
 		_ = sizeStore
 		isTW := false
 		if d1 != nil {
-			if _, call, idx := defOf(f, d1); call != nil && idx == 0 {
-				if fn, ok := calleeObj(info, call).(*types.Func); ok && fn.Name() == "NewTapeWriter" {
-					isTW = true
-				}
-			}
+			isTW = tapeWriterResult(f, d1) == 0
 		}
 		c.verdictIf(isTW, rule, f, "write-pass destination", encs[1].Call.Pos(),
 			"write pass writes into the tar writer", "the write pass does not write into the tar writer returned by NewTapeWriter")
@@ -610,7 +598,7 @@ func ruleC03FinishOrder(c *Ctx) {
 					if !(be.Op == token.EQL && ft.Pos || be.Op == token.NEQ && !ft.Pos) {
 						continue
 					}
-					for _, nd := range b.Nodes {
+					for _, nd := range fl.condNodes(b) {
 						as, ok := nd.(*ast.AssignStmt)
 						if !ok || len(as.Rhs) != 1 {
 							continue
@@ -818,4 +806,124 @@ func ruleC03LogicalSize(c *Ctx) {
 			c.verdictIf(okk, rule, f, fmt.Sprintf("convert#%d after restore", n), cs.Call.Pos(), "conversion to an index row happens after the logical size was restored", "a header is converted to an index row before its logical size was restored")
 		}
 	}
+}
+
+// dispatchTable is a value-keyed dispatch in a function: a tagged switch, or a lookup in a package-level map whose
+// initialiser is a literal with constant keys (`s, ok := table[format]; if !ok { return err }`), presented as a
+// switch table: one arm per entry (its body is the entry's value), the `!ok` branch as the default arm.
+type dispatchTable struct {
+	t   *SwitchTable
+	pos token.Pos
+}
+
+func (d dispatchTable) Pos() token.Pos { return d.pos }
+
+func dispatchTablesIn(f *FuncInfo) []dispatchTable {
+	info := f.Pkg.TypesInfo
+	var out []dispatchTable
+	var visit func(list []ast.Stmt)
+	handle := func(list []ast.Stmt, i int) {
+		as, ok := list[i].(*ast.AssignStmt)
+		if !ok || len(as.Rhs) != 1 {
+			return
+		}
+		ix, ok := ast.Unparen(as.Rhs[0]).(*ast.IndexExpr)
+		if !ok {
+			return
+		}
+		mv, ok := objOfIdent(info, ix.X).(*types.Var)
+		if !ok || mv.Pkg() == nil || mv.Parent() != mv.Pkg().Scope() {
+			return
+		}
+		if _, isMap := mv.Type().Underlying().(*types.Map); !isMap {
+			return
+		}
+		// the literal initialiser
+		var lit *ast.CompositeLit
+		for _, file := range f.Pkg.Syntax {
+			for _, d := range file.Decls {
+				gd, ok := d.(*ast.GenDecl)
+				if !ok || gd.Tok != token.VAR {
+					continue
+				}
+				for _, sp := range gd.Specs {
+					vs := sp.(*ast.ValueSpec)
+					for k, nm := range vs.Names {
+						if info.Defs[nm] == types.Object(mv) && k < len(vs.Values) {
+							lit, _ = ast.Unparen(vs.Values[k]).(*ast.CompositeLit)
+						}
+					}
+				}
+			}
+		}
+		if lit == nil {
+			return
+		}
+		t := &SwitchTable{}
+		for _, el := range lit.Elts {
+			kv, ok := el.(*ast.KeyValueExpr)
+			if !ok {
+				return
+			}
+			sv, _ := constString(info, kv.Key)
+			t.Arms = append(t.Arms, &SwitchArm{Labels: []*types.Const{constOf(info, kv.Key)}, Values: []string{sv}, Body: []ast.Stmt{&ast.ExprStmt{X: kv.Value}}})
+		}
+		// `if !ok { ... }` right behind the lookup is the default arm
+		if len(as.Lhs) == 2 && i+1 < len(list) {
+			if is, ok := list[i+1].(*ast.IfStmt); ok && is.Init == nil {
+				if u, ok := ast.Unparen(is.Cond).(*ast.UnaryExpr); ok && u.Op == token.NOT && objOfIdent(info, u.X) != nil && objOfIdent(info, u.X) == objOfIdent(info, as.Lhs[1]) {
+					t.Arms = append(t.Arms, &SwitchArm{Default: true, Clauses: []*ast.CaseClause{{Body: is.Body.List}}, Body: is.Body.List})
+				}
+			}
+		}
+		out = append(out, dispatchTable{t, as.Pos()})
+	}
+	visit = func(list []ast.Stmt) {
+		for i, st := range list {
+			handle(list, i)
+			switch x := st.(type) {
+			case *ast.SwitchStmt:
+				if x.Tag != nil {
+					out = append(out, dispatchTable{buildSwitchTable(info, x), x.Pos()})
+				}
+				for _, cc := range x.Body.List {
+					visit(cc.(*ast.CaseClause).Body)
+				}
+			case *ast.BlockStmt:
+				visit(x.List)
+			case *ast.IfStmt:
+				visit(x.Body.List)
+				for el := x.Else; el != nil; {
+					switch e := el.(type) {
+					case *ast.BlockStmt:
+						visit(e.List)
+						el = nil
+					case *ast.IfStmt:
+						visit(e.Body.List)
+						el = e.Else
+					default:
+						el = nil
+					}
+				}
+			case *ast.ForStmt:
+				visit(x.Body.List)
+			case *ast.RangeStmt:
+				visit(x.Body.List)
+			case *ast.TypeSwitchStmt:
+				for _, cc := range x.Body.List {
+					visit(cc.(*ast.CaseClause).Body)
+				}
+			case *ast.SelectStmt:
+				for _, cc := range x.Body.List {
+					visit(cc.(*ast.CommClause).Body)
+				}
+			case *ast.LabeledStmt:
+				visit([]ast.Stmt{x.Stmt})
+			}
+		}
+	}
+	if f.Body() != nil {
+		visit(f.Body().List)
+	}
+	return out
 }
